@@ -25,6 +25,8 @@ def shapes(t):
     for (m, target, ctype) in (('GET', '/', None), ('GET', '/style.css', None), ('GET', '/form-get-method?a=b', None),
                                ('POST', '/form-url-encoded-enctype-post-method', 'application/x-www-form-urlencoded'), ('POST', '/form-multipart-enctype-post-method', 'multipart/form-data; boundary=b')):
         out.append(dict(kind='fixed', method=m, target=target, ctype=ctype, bcap=2))
+    for dp in MULTIPART_DISPOSITION_PREFIXES:
+        for ln_ in ((2, 2), (0, 1)): out.append(dict(kind='multipart', disp_prefix=dp, lens=ln_))
     out.append(dict(kind='short-write', entry='process')); out.append(dict(kind='short-write', entry='process_request'))
     return out
 
@@ -82,6 +84,7 @@ def wellformed(ex, o, data, method, res, wit, head_ascii=True):
 
 def case(prog, params):
     ex = new_ex(prog)
+    if params['kind'] == 'multipart': ex.fork_read_until = 6; params = dict(params, method='POST')
     cons = []
     reqb, sy = build_request(params, cons)
     res = {'violations': [], 'inconclusive': [], 'samples': [], 'kinds': {}, 'responses': 0}
